@@ -534,10 +534,13 @@ func (e *Enc) header() string {
 			if !ok {
 				continue
 			}
+			// header() runs concurrently for the obligations of one function that are raced in parallel
+			e.axMu.Lock()
 			if e.usedAxioms == nil {
 				e.usedAxioms = map[string]bool{}
 			}
 			e.usedAxioms[strings.Join(it.Needs, ",")] = true
+			e.axMu.Unlock()
 		}
 		sb.WriteString(it.Text + "\n")
 	}
